@@ -1020,6 +1020,9 @@ func limitCollection() ElementHook {
 		if err != nil {
 			return nil, fmt.Errorf("failed to retrieve the int64 value for literal %v with error %v", l, err)
 		}
+		if lv < 0 {
+			return nil, fmt.Errorf("limit requires a non-negative int64 value; found %d instead", lv)
+		}
 		st.limitSet, st.limit = true, lv
 		return hook, nil
 	}
